@@ -587,6 +587,7 @@ def main():
         'the real Clock.wait_until under virtual time that advances 1/1024 s per reading of the clock, '
         'started 1-3 readings before a minute / an hour ends; '
         'non-trivial = accepted pattern or or-list, distinct by text'.format(L, Lc))
+    chk.coverage['rule'] += " Added late: wait_until over generated sequences of clock readings (steady, several ticks per minute, stepped) against the model's waitUntil (theorem C11_wait_ends_at_first_match); and, as a TEST in real time (not a proof), a `time at` wait half a day away while another script ends."
     chk.coverage['exhaustive'] = True
     chk.assumptions += [
         'ASCII digits and ASCII white space only (Python \\d and \\s also accept other Unicode digits/spaces)',
